@@ -21,8 +21,8 @@ from checks import common
 PID = 'C01'
 
 # documented-as-supported rectangular sizes that are broken on the pinned tree (known findings)
-DEFECT_CONFIGS = ['Color488Code(2,3)', 'Color488Code(3,2)/XXZZ', 'Color666ToricCode(2,3)',
-                  'Color666ToricCode(3,2)']
+# (rectangular Color488Code, repaired by 75b0adf, is part of the regular size table now)
+DEFECT_CONFIGS = ['Color666ToricCode(2,3)', 'Color666ToricCode(3,2)']
 
 
 def _install():
@@ -384,7 +384,7 @@ def replay(path):
 
 def configs(tier):
     out = common.code_configs(tier, deformed=True, max_n=100 if tier == 'quick' else 600)
-    return out + DEFECT_CONFIGS
+    return out + [c for c in DEFECT_CONFIGS if c not in out]
 
 
 def main(argv=None):
